@@ -48,6 +48,9 @@ def cases(tier, seed):
     deep = dict(deep=True) if tier == "thorough" else {}  # thorough: more depths, more start depths and displacements, four steps
     for h, sch, mode, flow in itertools.product(HS + ([0.5, 20.0, 300.0] if deep else []), ["EF", "RK2", "RK4"], ["diff", "w", "both", "both-opposed", "off", "diff+hdiff"], ["stay", "east", "west"]):
         out.append(dict(mode="plug", h=h, scheme=sch, vmode=mode, flow=flow, **deep))
+    # the same lattice slice with the clock running backwards (vertical advection follows the reversed flow, the random walk is what it is)
+    for h, sch, mode, flow in itertools.product(HS[1:3], ["EF", "RK4"], ["diff", "w", "both", "both-opposed", "off"], ["stay", "east"]):
+        out.append(dict(mode="plug", h=h, scheme=sch, vmode=mode, flow=flow, rev=True, **deep))
     for h, vm, adv in itertools.product(HS, ["diff", "w", "both"], ["", "EF"]):
         out.append(dict(mode="reshuffle", h=h, vmode=vm, scheme=adv))
     for mode in ("diff", "w", "both"):
@@ -102,7 +105,8 @@ def run_plug_one(case, d):
 
     h0, vmode, flow = case["h"], case["vmode"], case["flow"]
     mods = {}
-    mods["time"] = TimeKeeper(start=world.iso(S0), stop=world.iso(S0 + 100 * DT), dt=DT)
+    rev = bool(case.get("rev"))
+    mods["time"] = TimeKeeper(start=world.iso(S0), stop=world.iso(S0 + (-100 if rev else 100) * DT), dt=DT, time_reversal=rev)
     mods["state"] = st = State()
     mods["grid"] = g = plugin("agrid").Grid(modules=mods, imax=12, jmax=9, dx=100.0, h=h0, hmode="step")  # cells i>=5 are twice as deep
     x0, vx = dict(stay=(3.2, 0.05), east=(4.3, 0.45), west=(5.2, -0.45))[flow]
@@ -152,13 +156,14 @@ def run_plug_one(case, d):
                 if st.Z[k] != zbefore[k]:
                     bad("off:not-identical", f"step {step} particle {k}: Z {zbefore[k]} -> {st.Z[k]} with vertical processes off")
                 continue
-            if abs(dd[k] + dw[k]) >= hcell:
+            if abs(dd[k] + (-1 if rev else 1) * dw[k]) >= hcell:
+                exp[k] = float(st.Z[k])  # (the reference follows the particle from where it is now)
                 continue  # outside the statement's condition (can happen in step 2 after moving to a shallower cell)
             z = exp[k]
             if vmode in ("diff", "both", "both-opposed", "diff+hdiff"):
                 z = z + (2 * Dz / DT) ** 0.5 * dd[k] * DT
             if vmode in ("w", "both", "both-opposed"):
-                z = z + (dw[k] / DT) * DT
+                z = z + (-1 if rev else 1) * (dw[k] / DT) * DT  # tracked backwards, the particle rises where the water sinks
             crossed = z < 0 or z > hcell
             if crossed:
                 nt += 1
